@@ -14,12 +14,24 @@ REQUIRED = ['core/wl/message.py:Message.resolve', 'core/wl/object.py:ObjectBase.
 
 
 def plan(tier, seed):
+    # mode gdb: the same lifetimes where nothing but the closures of a live program feeds the table - the GDB plugin (tier A of C15: the
+    # real plugin on the ctypes inferior), with connections whose first object id 2 is not the registry, released and handed out again
     if tier == 'quick':
-        return [{'n': 30, 'len': [60, 600]} for _ in range(16)]
-    return [{'n': 150, 'len': [60, 2000]} for _ in range(64)]
+        return [{'n': 30, 'len': [60, 600]} for _ in range(16)] + [{'mode': 'gdb', 'n': 40, 'gdb_shim': True, 'len': [20, 150]} for _ in range(2)]
+    return [{'n': 150, 'len': [60, 2000]} for _ in range(64)] + [{'mode': 'gdb', 'n': 300, 'gdb_shim': True, 'len': [20, 300]} for _ in range(6)]
 
 
 def run(ctx, spec):
+    if spec.get('mode') == 'gdb':
+        from . import c15
+        env.setup(spec)
+        cands = wlxml.shipped(env.REPO)
+        for i in range(spec['n']):
+            c15.run_one(ctx, ctx.rng, cands, spec, 'A', objects_only=True)
+            ctx.count('gdb_mode_sequences')
+            if ctx.out_of_time():
+                break
+        return
     env.setup()
     cands = wlxml.shipped(env.REPO)
     if spec.get('shard') == 1:
@@ -112,6 +124,9 @@ def finalize(m):
 
 
 def replay(ctx, case):
+    if 'full_events' in case:
+        from . import c15
+        return c15.replay(ctx, case)
     env.setup()
     if 'deep_table' in case:
         return objcheck.deep_table(ctx, case['deep_table'])
